@@ -185,9 +185,18 @@ Qed.
 Lemma trim_left_id e : is_ws (hd 0 e) = false -> trim_left_ws e = e.
 Proof. destruct e as [|c r]; [reflexivity|]. cbn. intros ->. reflexivity. Qed.
 
+Lemma rev_lin_rev {A} (l : list A) : rev_lin l = rev l.
+Proof. unfold rev_lin. symmetry. apply rev_alt. Qed.
+Lemma trim_ws_eq s : trim_ws s = rev (trim_left_ws (rev (trim_left_ws s))).
+Proof. unfold trim_ws. rewrite !rev_lin_rev. reflexivity. Qed.
+Lemma ends_cr_eq s : ends_cr s = match rev s with 13 :: _ => true | _ => false end.
+Proof. unfold ends_cr. rewrite rev_lin_rev. reflexivity. Qed.
+Lemma strip_cr_eq s : strip_cr s = match rev s with 13 :: r => rev r | _ => s end.
+Proof. unfold strip_cr. rewrite rev_lin_rev. destruct (rev s) as [|x t]; [reflexivity|]. rewrite rev_lin_rev. reflexivity. Qed.
+
 Lemma trim_ws_ends e : ends_ok e -> trim_ws e = e.
 Proof.
-  intros [Hh Hl]. unfold trim_ws. rewrite (trim_left_id e Hh).
+  intros [Hh Hl]. rewrite trim_ws_eq. rewrite (trim_left_id e Hh).
   destruct e as [|c r]; [reflexivity|].
   rewrite (rev_last (c :: r)) by discriminate. cbn [trim_left_ws]. rewrite Hl.
   rewrite <- rev_last by discriminate. apply rev_involutive.
@@ -197,8 +206,8 @@ Qed.
 Lemma trim_sp_ends e : ends_ok e -> trim_ws (32 :: e) = e.
 Proof.
   intros H. destruct e as [|c r]; [reflexivity|].
-  unfold trim_ws. cbn [trim_left_ws]. change (is_ws 32) with true. cbn match.
-  apply (trim_ws_ends (c :: r) H).
+  pose proof (trim_ws_ends (c :: r) H) as T. rewrite trim_ws_eq in T.
+  rewrite trim_ws_eq. cbn [trim_left_ws] in *. change (is_ws 32) with true. cbn match. exact T.
 Qed.
 
 Lemma ends_ok_forall e : forallb (fun c => negb (is_ws c)) e = true -> ends_ok e.
@@ -224,7 +233,7 @@ Proof.
 Qed.
 Lemma forallb_trim f s : forallb f s = true -> forallb f (trim_ws s) = true.
 Proof.
-  intros H. unfold trim_ws. rewrite forallb_rev. apply forallb_trim_left.
+  intros H. rewrite trim_ws_eq. rewrite forallb_rev. apply forallb_trim_left.
   rewrite forallb_rev. apply forallb_trim_left, H.
 Qed.
 
@@ -475,7 +484,7 @@ Proof.
 Qed.
 
 Lemma ends_cr_app x : ends_cr (x ++ [13]) = true /\ strip_cr (x ++ [13]) = x.
-Proof. unfold ends_cr, strip_cr. rewrite rev_app_distr. cbn. split; [reflexivity|apply rev_involutive]. Qed.
+Proof. rewrite ends_cr_eq, strip_cr_eq. rewrite rev_app_distr. cbn. split; [reflexivity|apply rev_involutive]. Qed.
 
 Lemma value_ok v : Forall vchar v -> valid_field_value (trim_ws (32 :: v)) = true.
 Proof.
